@@ -12,18 +12,6 @@ fn toks<T: ToTokens>(t: &T) -> String {
     t.to_token_stream().to_string().replace(' ', "")
 }
 
-fn local_init(block: &syn::Block, name: &str) -> Option<String> {
-    for st in &block.stmts {
-        if let syn::Stmt::Local(l) = st {
-            let pat = toks(&l.pat);
-            if pat == name || pat == format!("mut{name}") {
-                return l.init.as_ref().map(|i| toks(&i.expr));
-            }
-        }
-    }
-    None
-}
-
 /// top-level `self.service_data.<field> = <rhs>` assignments of a block: (index, field, rhs)
 fn assignments(block: &syn::Block) -> Vec<(usize, String, String)> {
     let mut v = vec![];
@@ -42,29 +30,43 @@ pub fn generate(repo: &PathBuf) -> Result<String, String> {
     let rel_add = "ant-node-manager/src/add_services/mod.rs";
     let file = parse_file(&repo.join(rel_add))?;
     let add = free_fn(&file, "add_node")?;
-    let cur = local_init(&add.block, "current_node_count").ok_or("add_node: `let current_node_count` not found")?;
-    let from_max = match cur.as_str() {
-        "node_registry.nodes.len()asu16" => false,
-        "node_registry.nodes.iter().map(|node|node.number).max().unwrap_or(0)" => true,
-        other => return Err(format!("add_node: unexpected numbering base `{other}`")),
-    };
-    let target = local_init(&add.block, "target_node_count").ok_or("add_node: `let target_node_count` not found")?;
-    if target != "current_node_count+options.count.unwrap_or(1)" {
-        return Err(format!("add_node: unexpected target_node_count `{target}`"));
-    }
-    let first = local_init(&add.block, "node_number").ok_or("add_node: `let mut node_number` not found")?;
-    if first != "current_node_count+1" {
-        return Err(format!("add_node: unexpected first node_number `{first}`"));
-    }
+    // the bindings are found by their initialisers, not by their names (a rename is harmless)
+    let lets: Vec<(String, String)> = add
+        .block
+        .stmts
+        .iter()
+        .filter_map(|st| match st {
+            syn::Stmt::Local(l) => l.init.as_ref().map(|i| (toks(&l.pat).trim_start_matches("mut").to_string(), toks(&i.expr))),
+            _ => None,
+        })
+        .collect();
+    let (base, cur, from_max) = lets
+        .iter()
+        .find_map(|(n, e)| match e.as_str() {
+            "node_registry.nodes.len()asu16" => Some((n.clone(), e.clone(), false)),
+            "node_registry.nodes.iter().map(|node|node.number).max().unwrap_or(0)" => Some((n.clone(), e.clone(), true)),
+            _ => None,
+        })
+        .ok_or("add_node: no binding initialised from the registry length or the highest recorded number")?;
+    let target = lets
+        .iter()
+        .find(|(_, e)| *e == format!("{base}+options.count.unwrap_or(1)"))
+        .map(|(n, _)| n.clone())
+        .ok_or_else(|| format!("add_node: no `let _ = {base} + options.count.unwrap_or(1)`"))?;
+    let first = lets
+        .iter()
+        .find(|(_, e)| *e == format!("{base}+1"))
+        .map(|(n, _)| n.clone())
+        .ok_or_else(|| format!("add_node: no `let mut _ = {base} + 1`"))?;
     let body = toks(&add.block);
     for needle in [
-        "letservice_name=format!(\"antnode{node_number}\");",
-        "letservice_data_dir_path=options.service_data_dir_path.join(service_name.clone());",
-        "number:node_number,",
-        "node_number+=1;",
-        "whilenode_number<=target_node_count",
+        format!("letservice_name=format!(\"antnode{{{first}}}\");"),
+        "letservice_data_dir_path=options.service_data_dir_path.join(service_name.clone());".to_string(),
+        format!("number:{first},"),
+        format!("{first}+=1;"),
+        format!("while{first}<={target}"),
     ] {
-        if !body.contains(needle) {
+        if !body.contains(&needle) {
             return Err(format!("add_node: expected `{needle}`"));
         }
     }
